@@ -68,10 +68,18 @@ type LogCapture struct {
 	mu     sync.Mutex
 	Counts map[string]int
 	Keep   []string
+	// Hook, when set, is called for every record on the goroutine that logs it,
+	// outside the handler's lock. Directed histories use litestream's own log
+	// calls as suspension points (e.g. "encode header" lies between building the
+	// WAL page map and copying the page data).
+	Hook func(msg string)
 }
 
 func (l *LogCapture) Enabled(context.Context, slog.Level) bool { return true }
 func (l *LogCapture) Handle(_ context.Context, r slog.Record) error {
+	if h := l.Hook; h != nil {
+		h(r.Message)
+	}
 	l.mu.Lock()
 	defer l.mu.Unlock()
 	if l.Counts == nil {
@@ -96,7 +104,7 @@ func (l *LogCapture) Handle(_ context.Context, r slog.Record) error {
 	return nil
 }
 func (l *LogCapture) WithAttrs([]slog.Attr) slog.Handler { return l }
-func (l *LogCapture) WithGroup(string) slog.Handler       { return l }
+func (l *LogCapture) WithGroup(string) slog.Handler      { return l }
 func (l *LogCapture) Snapshot() map[string]int {
 	l.mu.Lock()
 	defer l.mu.Unlock()
@@ -434,7 +442,7 @@ func (e *Env) AppCheckpoint(mode string) {
 		return
 	}
 	var a, b, c int
-	err := e.W.QueryRow(`PRAGMA wal_checkpoint(` + mode + `)`).Scan(&a, &b, &c)
+	err := e.W.QueryRow(`PRAGMA wal_checkpoint(`+mode+`)`).Scan(&a, &b, &c)
 	e.Logf("app wal_checkpoint(%s) busy=%d log=%d ckpt=%d err=%v", mode, a, b, c, err)
 	if err == nil && a == 0 {
 		e.Res.Count("app_checkpoint_"+mode, 1)
